@@ -1,5 +1,6 @@
 import FCA.Model.Formats
 import FCA.Generated.Formats
+import FCA.Generated.CxtLines
 /-
 C12: the constants the format model is written with are the ones in the current source
 (`concepts/formats/*.py`) and in the running CPython (`str.isspace`), regenerated on every run.
@@ -23,5 +24,30 @@ theorem C12_generated_tables :
     Generated.dumpsRstrip = [("csv", false), ("cxt", false), ("fimi", false), ("python-literal", true), ("table", true),
       ("wiki-table", true), ("wikitable", true)] := by decide
 
+/-! ### the cxt writer, yield by yield -/
+
+/-- the cell symbols of the current source (`Generated.cxtSymbols`) as the function `symbols[value]` -/
+def C12_cxtSymbol (value : Bool) : List Char :=
+  ((Generated.cxtSymbols.lookup value).getD "").toList
+
+/-- `Cxt.dumpf` of the current source — `print` of every line `iter_cxt_lines` yields, with the symbols table of the current
+source — writes exactly the model's `dumpCxt` text (about which `C12_cxt_roundtrip*`, `C12_strict_cxt` are proved) -/
+theorem C12_generated_cxt_dump (objects properties : List Str) (bools : List (List Bool)) :
+    unlines (Generated.cxt_lines C12_cxtSymbol objects properties bools) = dumpCxt objects properties bools := by
+  have ht : C12_cxtSymbol true = ['X'] := by decide
+  have hf : C12_cxtSymbol false = ['.'] := by decide
+  have hs : ∀ row : List Bool, (row.flatMap fun value => C12_cxtSymbol value) = row.map fun b => if b then 'X' else '.' := by
+    intro row
+    induction row with
+    | nil => rfl
+    | cons b bs ih =>
+      rw [List.flatMap_cons, ih]
+      cases b
+      · rw [hf]; rfl
+      · rw [ht]; rfl
+  simp only [Generated.cxt_lines, dumpCxt, hs]
+  rfl
+
 end FCA
 #print axioms FCA.C12_generated_whitespace
+#print axioms FCA.C12_generated_cxt_dump
